@@ -60,6 +60,12 @@ def gen_chain(rng):
                 body.insert(rng.randint(0, len(body)), ("B", b))
             placed.append(b)
         members[0] = body
+        # module-level attributes: names 20..23, bound to values some of which are falsy or None
+        attrs = {a: rng.choice(["'v'", "None", "''", "0", "False", "[]"]) for a in rng.sample([20, 21, 22, 23], rng.randint(0, 3))}
+        for x in list(members):
+            if rng.random() < 0.5:
+                members[x].insert(rng.randint(0, len(members[x])), ("A", rng.choice("snpl"), rng.choice([20, 21, 22, 23])))
+        members["attrs"] = attrs
         chain.append(members)
     return chain
 
@@ -71,6 +77,8 @@ def items_src(k, members, items):
             out.append("t%d " % it[1])
         elif it[0] == "B":
             out.append('<%%block name="b%d">e%d:%d %s</%%block>' % (it[1], k, it[1], items_src(k, members, members[it[1]])))
+        elif it[0] == "A":
+            out.append("${attr_mark(%s.attr, 'x%d')} " % (W[it[1]], it[2]))
         else:
             out.append("${%s.%s()}" % (W[it[1]], mname(it[2])))
     return "".join(out)
@@ -80,19 +88,24 @@ def template_src(k, n, members, dynamic):
     parts = []
     if k < n - 1:
         parts.append('<%%inherit file="%s"/>' % ("${context['parent_uri_%d']}" % k if dynamic else "/t%d.html" % (k + 1)))
+    if members["attrs"]:
+        parts.append("<%%! %s %%>" % "; ".join("x%d = (%d, %s)" % (a, k, v) for a, v in sorted(members["attrs"].items())))
     parts.append("e%d:0 " % k + items_src(k, members, members[0]))
-    for x in sorted(members):
+    for x in sorted(x_ for x_ in members if isinstance(x_, int)):
         if 0 < x < 5:
             parts.append('<%%def name="m%d()">e%d:%d %s</%%def>' % (x, k, x, items_src(k, members, members[x])))
     return "".join(parts)
 
 
 def items_tok(items):
-    return " ".join("T %d" % it[1] if it[0] == "T" else ("B %d" % it[1] if it[0] == "B" else "C %s %d" % (it[1], it[2])) for it in items)
+    return " ".join("T %d" % it[1] if it[0] == "T" else ("B %d" % it[1] if it[0] == "B" else ("A %s %d" % (it[1], it[2]) if it[0] == "A" else "C %s %d" % (it[1], it[2]))) for it in items)
 
 
 def chain_tok(chain):
-    return "render|%d %s" % (len(chain), " ".join("M %d %s" % (len(m), " ".join("%d %d %s" % (x, len(m[x]), items_tok(m[x])) for x in sorted(m))) for m in chain))
+    def one(m):
+        ks = sorted(x for x in m if isinstance(x, int))
+        return "M %d %s %d %s" % (len(ks), " ".join("%d %d %s" % (x, len(m[x]), items_tok(m[x])) for x in ks), len(m["attrs"]), " ".join(str(a) for a in sorted(m["attrs"])))
+    return "render|%d %s" % (len(chain), " ".join(one(m) for m in chain))
 
 
 def run(ctx):
@@ -109,6 +122,9 @@ def run(ctx):
     for i in range(n):
         chain = gen_chain(rng)
         dynamic = i % 3 == 0
+        cut = None
+        if dynamic and len(chain) > 1 and rng.random() < 0.4:
+            cut = rng.randrange(len(chain) - 1)          # template cut's inherit expression evaluates to None: it is the base of this render
         lk = TemplateLookup()
         srcs = {}
         for k, members in enumerate(chain):
@@ -116,9 +132,17 @@ def run(ctx):
             lk.put_string("/t%d.html" % k, srcs["/t%d.html" % k])
         ctx.evaluations += 1
         ctx.nontrivial.add(tuple(sorted(srcs.items())))
-        case = {"templates": srcs, "inherit_targets": "expression" if dynamic else "static"}
+        case = {"templates": srcs, "inherit_targets": "expression" if dynamic else "static", "expression_is_None_at": cut}
         buf = util.FastEncodingBuffer()
-        c = Context(buf, **{"parent_uri_%d" % k: "/t%d.html" % (k + 1) for k in range(len(chain))})
+        def attr_mark(a, name):
+            try:
+                v = getattr(a, name)
+            except AttributeError:
+                raise
+            return "a%d:%s" % (v[0], name[1:])
+        c = Context(buf, attr_mark=attr_mark, **{"parent_uri_%d" % k: (None if k == cut else "/t%d.html" % (k + 1)) for k in range(len(chain))})
+        if cut is not None:
+            chain = chain[: cut + 1]
         try:
             lk.get_template("/t0.html").render_context(c)
             res = "ok"
@@ -149,6 +173,10 @@ def run(ctx):
         ({"/c.html": '<%def name="d()"><%block name="a">1</%block></%def>${d()}'}, "raised CompileException", "named-block-in-def"),
         ({"/c.html": '<%def name="w()">${caller.body()}</%def><%call expr="w()"><%block name="a">1</%block></%call>'}, "raised CompileException", "named-block-in-call"),
         ({"/c.html": '<%def name="d()"><%block>anon</%block></%def>${d()}'}, "anon", "anonymous-block-in-def"),
+        ({"/c.html": '<%def name="d()"><%block><%block name="a">1</%block></%block></%def>${d()}'}, "raised CompileException", "named-block-in-def-wrapped"),
+        ({"/c.html": '<%def name="w()">${caller.body()}</%def><%call expr="w()"><%block><%block name="a">1</%block></%block></%call>'}, "raised CompileException", "named-block-in-call-wrapped"),
+        ({"/c.html": '<%def name="w()">${caller.body()}</%def><%self:w><%block><%block name="a">1</%block></%block></%self:w>'}, "raised CompileException", "named-block-in-nscall-wrapped"),
+        ({"/b.html": "<%! x = 'base' %>${self.attr.x}|${next.attr.x}", "/c.html": '<%inherit file="/b.html"/><%! x = None %>'}, "None|None", "module-attr-none"),
         ({"/b.html": "[<%block>A</%block>${next.body()}]", "/c.html": '<%inherit file="/b.html"/><%block>B</%block>'}, "[AB]", "anonymous-in-place"),
         ({"/b.html": '<%block name="h">base-h</%block>|${next.body()}', "/c.html": '<%inherit file="/b.html"/><%block name="h">child-h(${parent.h()})</%block>body'},
          "child-h(base-h)|body", "block-override-with-parent"),
